@@ -119,6 +119,22 @@ pub fn for_each_response(cfg: &crate::RunCfg, label: &str, n: u64, f: &mut dyn F
                         ctrl_request(c.addr, src, iid, false, cmd, &d)
                     }
                 };
+                let mut req = req;
+                if rng.chance(1, 3) {
+                    // transport flags, datagram and reserved bits are not looked at by the decoder;
+                    // another implementation may set them
+                    req[7] = rng.byte();
+                    if rng.chance(1, 2) {
+                        req[9] |= 0x40;
+                    }
+                    if rng.chance(1, 3) {
+                        req[9] |= 0x20;
+                    }
+                    crate::refmodel::forge::fix_pec(&mut req);
+                }
+                if rng.chance(1, 8) {
+                    let _ = get_length(ctx, &req);
+                }
                 rng.fill(&mut rb);
                 if let ProcOut::Ok { resp: Some(l), .. } = process(ctx, &req, &mut rb) {
                     if l <= rb.len() && l >= 10 {
